@@ -801,6 +801,38 @@ def gen_script(rng, world, dims):
                 for nm in ("before_step", "after_step"):
                     if nm in hooks and rng.random() < 0.3:
                         hook_entry(nm, "%s#%d" % (sc["id"], idx))
+    if dims.get("table_mutation"):
+        if "before_feature" not in world["hooks"]:
+            world["hooks"].append("before_feature")
+        for feat in world["features"]:
+            outs = [it for it in feat["items"] if it["kind"] == "outline"]
+            for it in feat["items"]:
+                if it["kind"] == "rule":
+                    outs += [x for x in it["items"] if x["kind"] == "outline"]
+            for ol in outs:
+                if rng.random() < 0.5:
+                    e = rng.randrange(len(ol["examples"]))
+                    ex = ol["examples"][e]
+                    key = "hook|before_feature|%s||0" % feat["id"]
+                    ent = script.setdefault(key, {"acts": [], "out": {"kind": "ok"}})
+                    if rng.random() < 0.7:
+                        ent["acts"].append({"a": "examples_table", "what": "add_row", "outline": ol["id"], "e": e,
+                                            "cells": ["n%d" % rng.randint(0, 9) for _ in ex["headings"]]})
+                    else:
+                        ent["acts"].append({"a": "examples_table", "what": "add_column", "outline": ol["id"], "e": e,
+                                            "column": "cz", "value": "z%d" % rng.randint(0, 9)})
+        for key, ent in list(script.items()):
+            if key.startswith("step|") and rng.random() < 0.3:
+                ent["acts"].append({"a": "step_table", "what": rng.choice(["add_row", "cell"])})
+        for feat, rule, ol, sc in walk_scenarios(world):
+            if ol is None:
+                continue
+            for idx, (_sid, st) in enumerate(all_steps_of(feat, rule, sc)):
+                if st.get("table") and rng.random() < 0.5:
+                    key = "step|%s|%d|0" % (sc["id"], idx)
+                    ent = script.setdefault(key, {"acts": [], "out": {"kind": "ok"}})
+                    if not any(a["a"] == "step_table" for a in ent["acts"]):
+                        ent["acts"].append({"a": "step_table", "what": rng.choice(["add_row", "cell"])})
     world["script"] = script
     world["autoretry"] = {}
     if dims["autoretry"]:
@@ -873,6 +905,9 @@ def gen_config(rng, world, dims):
         cfg["logging_filter"] = rng.choice(["foo", "-foo", "foo,baz"])
     if rng.random() < 0.1:
         cfg["logging_clear_handlers"] = True
+    if dims.get("outline_schemas") and rng.random() < 0.5:
+        cfg["outline_schema"] = rng.choice(["{name} -*- {examples.name}@{row.id}", "{name} [{row.index}/{examples.index}]",
+                                            "{name}", "{name} :: {examples.name} :: {row.id}"])
     if dims["junit"]:
         if rng.random() < 0.3:
             cfg["userdata"]["behave.reporter.junit.show_timings"] = rng.choice(["true", "false"])
